@@ -137,6 +137,9 @@ class P:
         # 257 is not 1 (low octet inside 1..30, zero, outside; up to what a UDP datagram can carry)
         for c in (256, 257, 270, 286, 287, 300, 512, 513, 542, 1025, 1054, 1364):
             out.append("nf5 %s %s" % (hx(rand_addr(rng)), hx(self.packet(rng, c, distinct=(c % 2 == 0)))))
+        # the version is 16 bits wide: 0x0105, 0x0205 ... 0xff05 and 0x0500 are not version 5
+        for v in (0x0105, 0x0205, 0x0505, 0x8005, 0xff05, 0x0500, 0x0050):
+            out.append("nf5 %s %s" % (hx(rand_addr(rng)), hx(self.packet(rng, rng.randint(1, 30), version=v))))
         out += [self.gen_case(rng) for _ in range(budget)]
         # retention: several packets are decoded first and printed / encoded only afterwards (a decoded message must not live
         # in storage that a later decode reuses)
